@@ -26,6 +26,7 @@ pub const MENU: &[&str] = &[
     "unreferenced-blob-wrong-content",
     "second-unreferenced-blob",
     "referenced-empty-blob-made-nonempty",
+    "uppercase-shard-dir",
 ];
 
 fn first_ref<K: HKey>(m: &Model<K>) -> Option<[u8; 32]> {
@@ -56,6 +57,16 @@ pub fn plant<K: HKey>(im: &mut Image, m: &Model<K>, g: &str) -> bool {
         "uppercase-name" => {
             let d = b"UPPER".to_vec();
             put(im, format!("cas/{}", ondisk::path_of_hash(&b3(&d)).to_uppercase()), d)
+        }
+        "uppercase-shard-dir" => {
+            // only the first directory level is upper-case; the file name itself is the canonical lower-case tail
+            let d = b"shard-case".to_vec();
+            let p = ondisk::path_of_hash(&b3(&d));
+            let (l1, rest) = p.split_at(2);
+            if l1.to_uppercase() == l1 {
+                return false;
+            }
+            put(im, format!("cas/{}{}", l1.to_uppercase(), rest), d)
         }
         "staging-leftover" => put(im, "staging/.tmpLEFTOVER".into(), b"partial".to_vec()),
         "unreferenced-blob-wrong-content" => {
